@@ -65,9 +65,10 @@ blank at either end, RUNS OF BLANKS INSIDE ALLOWED as long as none of them falls
 `WrapString(_, 68)` (`!clsBlankRun x`: a SYNTACTIC condition on the value and the writer's wrap column —
 `WrapString` writes as many characters as the text has; no reader occurs in it); a reference number that
 is unset or a blank-free word; extra
-keywords distinct, ≤ 12 columns, beginning with a letter, not one of the writer's own keywords;
+keywords distinct, ≤ 11 letters (set off from their text by a blank), beginning with a letter, not one of the writer's own keywords;
 feature keys ≤ 15 columns; qualifier keys distinct blank-free words without `=`; qualifier values
-printable ASCII of any length; cached location text blank-free; sequence 1 ≤ length < 10^9 letters. -/
+printable ASCII of any length; cached location text blank-free, else a structure that is a location (`wfLoc`);
+sequence 1 ≤ length < 10^9 letters. -/
 def WFLayout (x : Sequence) : Prop := wfLayoutG x = true
 
 instance (x : Sequence) : Decidable (WFLayout x) := by unfold WFLayout; infer_instance
